@@ -321,7 +321,7 @@ def gen_cases(run):
     # PDFs: encrypted by a separate pool task (reference AES), then handed to the extraction workers
     jobs = []
     for r in range(run.n(3, 25)):
-        feat = rng.choice([None, None, "multi-image-pages"])
+        feat = [None, "multi-image-pages", "large-image"][r % 3]      # (large-image: a file above 10 KiB, far below the documented 10 MB image-skip limit)
         for alg in ("RC4-40", "RC4-128", "AES-128", "AES-256"):
             if alg == "AES-256" and r >= run.n(1, 6):
                 continue        # the R6 key derivation costs seconds per file with pure-Python AES on both sides
